@@ -73,11 +73,16 @@ def _scenario(beh, stream, kind, seed, flight="app"):
     # locate the flight
     from harness.tlsrun import build_conn
     c = build_conn(cd)
+    fdir = "s"
     if flight == "app":
         first = [r.idx for r in c.records if r.kind == "APP" and r.d == "s"][0]
+    elif flight == "ch":            # the ClientHello itself arrives in pieces, possibly out of order (first data of the connection)
+        first, fdir = 0, "c"
+    elif flight == "c2":            # the client's second flight (ClientKeyExchange, ChangeCipherSpec, Finished) of a full <= 1.2 handshake
+        first, fdir = [r.idx for r in c.records if r.d == "c" and r.idx > 0][0], "c"
     else:
         first = [r.idx for r in c.records if r.kind == "SH"][0]
-    cd["sched"] = dict(dir="s", first_rec=first, cells=list(stream), hist=beh["hist"], released=beh.get("released"), garbage=beh.get("garbage"))
+    cd["sched"] = dict(dir=fdir, first_rec=first, cells=list(stream), hist=beh["hist"], released=beh.get("released"), garbage=beh.get("garbage"))
     # sequence-number wrap position: spec key = (isn + cell) % Mod  ->  concrete ISN so that 2^32 falls on that cell
     mod, isn = beh.get("mod", 0), beh.get("isn", 0)
     total_cells = sum(5 + b for b in stream)
@@ -85,7 +90,7 @@ def _scenario(beh, stream, kind, seed, flight="app"):
         from harness.tlsrun import sched_segments
         _, cellmap = sched_segments(c, 0, cd["sched"])
         wrap_byte = cellmap[mod - isn]                      # stream offset (bytes) that gets sequence number 0
-        cd["isn"] = (1000, (2 ** 32 - wrap_byte - 1) % 2 ** 32)
+        cd["isn"] = (1000, (2 ** 32 - wrap_byte - 1) % 2 ** 32) if fdir == "s" else ((2 ** 32 - wrap_byte - 1) % 2 ** 32, 5000)
     return sc
 
 
@@ -183,11 +188,25 @@ def run(chk):
                 b["mod"] = int(consts.get("Mod", 0))
                 kind = KINDS[(i + len(jobs)) % len(KINDS)]
                 fl = "hs" if (len(st) == 3 and kind[0] != R.TLS13 and i % 4 == 0) else "app"
+                if len(st) == 3 and kind[0] != R.TLS13 and i % 4 == 1:
+                    fl = "c2"
                 kfs = sorted({h["kf"] for h in b["hist"]} - {"ok", "midgap"})
                 sc = scenario(b, st, kind, rng.randrange(1 << 30), fl)
                 if sc is None:
                     chk.extra["midgap_behaviours_skipped_bytes_do_not_overshoot"] = chk.extra.get("midgap_behaviours_skipped_bytes_do_not_overshoot", 0) + 1
                     continue
+                nmid += any(h["kf"] == "midgap" for h in b["hist"])
+                jobs.append((sc, kfs))
+    # 3b. the very first data of a connection: the ClientHello record in pieces, held / reordered / duplicated (single-record stream)
+    for consts in (dict(MaxHeld="2", MaxDup="1", MaxSeg="3"), dict(MaxHeld="1", MaxDup="0", MaxSeg="2", Mod="40", IsnSet="0..39")):
+        behs = gen_behaviours(chk, (3,), consts, 40 if quick else 400, seed=chk.seed + 2)
+        for i, b in enumerate(behs[: 60 if quick else 1500]):
+            b["mod"] = int(consts.get("Mod", 0))
+            kfs = sorted({h["kf"] for h in b["hist"]} - {"ok", "midgap"})
+            if kfs:
+                continue
+            sc = scenario(b, (3,), KINDS[i % len(KINDS)], rng.randrange(1 << 30), "ch")
+            if sc is not None:
                 nmid += any(h["kf"] == "midgap" for h in b["hist"])
                 jobs.append((sc, kfs))
     # 4. known-finding witnesses (KF-enabled model) are replayed too: they must be attributed, never silently pass as ok
